@@ -12,6 +12,8 @@ extra=""
 case $d in */benign/*) ok=$([ $rc0 = 0 ] && [ $rc1 = 0 ] && echo 1)
    # a demonstration whose oracle recorded behaviour that a later fix corrected fails on HEAD too: the refactoring is then
    # confirmed by the demonstration printing exactly the same on HEAD and on the patched tree
+   # (line numbers in warning locations move with the patch: they are not compared)
+   sed -i -E 's/\.py:[0-9]+:/.py:N:/' /tmp/rbm_$n.out0 /tmp/rbm_$n.out1
    if [ "$ok" != 1 ] && [ $rc0 = $rc1 ] && cmp -s /tmp/rbm_$n.out0 /tmp/rbm_$n.out1; then ok=1; extra="; the demonstration's oracle records behaviour that a later fix: commit corrected, so it exits $rc0 on both trees and prints exactly the same on both"; fi;;
  *) ok=$([ $rc0 = 0 ] && [ $rc1 != 0 ] && echo 1);; esac
 rm -f /tmp/rbm_$n.out0 /tmp/rbm_$n.out1
